@@ -180,6 +180,26 @@ def check(F, rep, tier):
             rep.ok("R14.5", "static %s: %s" % (s.path.replace("crate::", ""), ty[:60]))
     rep.ok("R14.5", "no thread spawn in %d reachable functions" % len(local), nontrivial_key="nothreads")
     # ---- R14.6 dependencies: what is read from other programs does not depend on the locale or on logging settings ---------------
+    # ---- R14.8 the template engine's own environment-reading built-ins are not reachable from a user template -----------------------
+    # `Tera::default()` registers now() (local wall clock), get_env() and get_random(); a user-supplied --output-template can call them
+    # unless zerv registers functions of the same names over them (Tera has no way to remove one).
+    tera_ctor = []; registered = set()
+    for p_, g_ in sorted(F.fns.items()):
+        if "crate::cli::utils::template::" not in p_ or "::tests" in p_: continue
+        for bi, t in g_.calls():
+            c_ = mir.callee(t) or ""
+            if c_.endswith("tera::Tera::default") or c_.endswith("Tera as std::default::Default>::default") or c_.endswith("tera::Tera::new"): tera_ctor.append((g_, bi))
+            if c_.endswith("Tera::register_function") and len(t[2]) > 1:
+                v = mir.const_arg(g_, t[2][1])
+                if isinstance(v, str): registered.add(v)
+    rep.floor("R14.8", "Tera instances built in the template module", len(tera_ctor), 1)
+    rep.floor("R14.8", "template functions registered by zerv", len(registered), 6)
+    open_ = sorted({"now", "get_env", "get_random"} - registered)
+    for g_, bi in tera_ctor:
+        fk = g_.path.replace("crate::", "")
+        top = fk.split("::{closure")[0]
+        if open_: rep.bad("R14.8", "tera-builtin-effects:" + top.rsplit("::", 1)[-1], "%s builds the engine with Tera's default function set and does not cover %s: a user template can read the local wall clock, the environment and a random generator (`{{ now() }}`, `{{ get_env(name=\"HOME\") }}`, `{{ get_random(start=0, end=9) }}`), so the output is not a function of the repository state and the arguments" % (top, open_), "%s bb%d" % (g_.where(), bi))
+        else: rep.ok("R14.8", "Tera's now / get_env / get_random are replaced by functions zerv registers", nontrivial_key="builtins" + fk)
     # ---- R14.7 every git process runs in the repository directory (-C), not in the caller's working directory ------------------------
     ngit = 0
     for p_, g_ in sorted(F.fns.items()):
